@@ -13,11 +13,23 @@ Model side (Lean, Drivers/Obj.lean): the dumped heap goes through `Obj.getChildr
 getModel / getParentOfType`; the dumped Arpeggio parse tree goes through `Obj.build`
 (process_node) and its parent links / containment lists are compared with the real model.
 
+Sessions (harness/objhist.py): the navigation API takes its meta data from the class objects of the
+model elements at call time, and class objects outlive meta-models.  40 % of the cases are sessions of
+2-4 steps in one process: earlier meta-models built from variants of the grammar (containment
+attribute added / removed / turned into a reference and back, multiplicity changed, attributes
+reordered), from independent grammars over the same rule names or from the same grammar, with the
+*same user class objects* or with classes of their own; several models of one meta-model; older
+models navigated after newer ones were loaded; models released and collected in between.  Every step
+is observed and judged.  User classes may derive from each other and may be supplied by a callable.
+Model side: `navh` — the class table after the recorded history of constructions (Obj/ClassTbl.lean)
+applied to the plain Python objects (instance dictionaries, no meta data).
+
 Oracle: decided from the property statement on the *expected* object tree of the
 derivation (no model, no textX metadata).
 """
 from harness.core import Check, use_repo
 from harness import objgen as G
+from harness import objhist as H
 
 PLAIN = {"lead": None, "trail": None, "seps": []}
 
@@ -26,8 +38,8 @@ class _Unknown:
     pass
 
 
-def uses_parent_attr(case):
-    return any(e.get("attr") == "parent" for r in case["gram"]["rules"] if r["kind"] == "common" for e in r["elems"])
+def uses_parent_attr(gram):
+    return any(e.get("attr") == "parent" for r in gram["rules"] if r["kind"] == "common" for e in r["elems"])
 
 
 def focus_unusual_single(rng, gram):
@@ -72,11 +84,23 @@ def spec_ids(spec, exp):
     return [i for i in spec["v"] if i < len(exp)]
 
 
-def gen_queries(rng, gram, exp):
+def gen_queries(rng, gram, exp, small=False):
+    """navigation calls for a model; small: the few calls made on the models of earlier steps of a session"""
     n = len(exp)
     rule_names = [r["name"] for r in gram["rules"] if r["kind"] != "match"]
     classes = sorted({o["cls"] for o in exp})
     qs = []
+    if small:
+        for _ in range(rng.randint(1, 2)):
+            root = 0 if rng.chance(0.6) else rng.below(n)
+            fol = {"k": "all"} if rng.chance(0.6) else spec_gen(rng, exp, classes)
+            qs.append(["children", root, rng.chance(0.5), spec_gen(rng, exp, classes), fol])
+        if rng.chance(0.6):
+            qs.append(["oftype", 0 if rng.chance(0.6) else rng.below(n), rng.chance(0.5), rng.choice(classes),
+                       rng.chance(0.5), {"k": "all"}])
+        if rng.chance(0.4):
+            qs.append(["pot", rng.choice(classes), rng.chance(0.5), rng.below(n)])
+        return qs
     for _ in range(rng.randint(3, 6)):
         root = 0 if rng.chance(0.5) else rng.below(n)
         fol = {"k": "all"} if rng.chance(0.4) else spec_gen(rng, exp, classes)
@@ -107,19 +131,30 @@ class Prop(Check):
         "Obj.C05_refs_inert_update",
         "Obj.C05_parent_of_type",
         "Obj.C05_ancestors_contained",
+        "Obj.C05_history_view",
+        "Obj.C05_history_navigation",
+        "Obj.C05_history_model",
+        "Obj.C05_history_rebind_false",
     ]
     DRIVER = "Drivers/Obj.lean"
     QUICK_CASES = 300
     THOROUGH_CASES = 6000
     PROCS_THOROUGH = 4
     RULE = ("random grammar (2-6 common rules, abstract and match rules, recursion, references, user classes incl. "
-            "falsy / container-like / iterable / unhashable ones) + derived "
-            "model + 6-14 navigation calls; non-trivial = model with >= 4 contained objects, nesting depth >= 2, at "
+            "falsy / container-like / iterable / unhashable ones, deriving from each other, given as list or callable) "
+            "+ derived model + 6-14 navigation calls; 40 % of the cases are sessions: 1-3 earlier meta-models (variants "
+            "of the grammar with other containment attributes, independent grammars with the same rule names, the same "
+            "grammar) sharing the user class objects or not, earlier models of the same meta-model, deferred calls on "
+            "older models, released models, each step with its own calls and judged; non-trivial = model with >= 4 contained objects, nesting depth >= 2, at "
             "least one resolved reference to an object, and a get_children call whose result is a non-empty proper "
             "subset of the objects below its root")
-    MODELLED = ("hand-modelled: model.py get_model / get_parent_of_type / get_children(+_of_type) (Obj/Nav.lean) and "
-                "process_node's instance stack, parent assignment and attribute filling (Obj/Build.lean); tie X: real "
-                "heap dump -> Lean navigation functions (exact result lists), real Arpeggio parse tree -> Lean "
+    MODELLED = ("hand-modelled: model.py get_model / get_parent_of_type / get_children(+_of_type) (Obj/Nav.lean), "
+                "_tx_attrs as state of the class objects written by every meta-model construction (_init_class / "
+                "_new_cls_attr; Obj/ClassTbl.lean) and "
+                "process_node's instance stack, parent assignment and attribute filling (Obj/Build.lean); tie X: "
+                "instance dictionaries of the real objects + the attribute lists recorded after every construction of "
+                "the session -> Lean class table after that history -> Lean navigation functions (exact result lists), "
+                "real Arpeggio parse tree -> Lean "
                 "process_node (parent links, containment lists; bool(obj) of the generated user classes is the model's "
                 "truthiness parameter); not exhibited: user classes that override "
                 "attribute access or define __slots__, object processors replacing objects (C13), grammars whose rule is "
@@ -129,6 +164,9 @@ class Prop(Check):
         "'of the given type' is read as exact class-name equality, not inheritance",
         "a user class storing parent=None on the root counts as 'the root has no parent'",
         "the attribute name 'parent' is reserved by textX (grammars assigning it are rejected after the repair)",
+        "a class object describes one grammar at a time: a model whose user classes were handed to a later "
+        "meta-model of a *different* grammar is no longer navigated (Obj.C05_history_rebind_false); re-use one after "
+        "the other, several meta-models of the same grammar and any number of models per meta-model are covered",
     ]
 
     # ------------------------------------------------------------------ generation
@@ -147,30 +185,31 @@ class Prop(Check):
             tree = G.derive(r, gram, maxdepth=r.randint(2, 5))
             _, exp = G.expected(gram, tree, PLAIN)
             layout = PLAIN if r.chance(0.7) else G.gen_layout(r, gram, len([1 for x in G.tokens(gram, tree) if x[0] == "tok"]))
-            yield {"gram": gram, "tree": tree, "layout": layout, "file": r.chance(0.15),
-                   "queries": gen_queries(r, gram, exp)}
+            case = {"gram": gram, "tree": tree, "layout": layout, "file": r.chance(0.15),
+                    "queries": gen_queries(r, gram, exp)}
+            # sessions (harness/objhist.py); every choice from a fork of its own, so the single-model part of
+            # the stream is what it was before sessions existed
+            h = r.fork("hist")
+            with_hist = h.chance(0.4)
+            if with_hist:
+                H.ensure_user(h, gram, tree)
+            if h.chance(0.3):
+                H.gen_inheritance(h, gram, tree)
+            if h.chance(0.25) and any(ru.get("user") for ru in gram["rules"]):
+                case["provider"] = True
+            if with_hist:
+                hist, extra = H.gen_history(h, gram, tree, gen_queries)
+                case["history"] = hist
+                case.update(extra)
+            yield case
 
     # ------------------------------------------------------------------ implementation
     def impl(self, case):
         use_repo()
-        from textx.exceptions import TextXError
+        return H.run_session(case, self.observe)
 
-        L = None
-        try:
-            try:
-                L = G.load(case)
-            except TextXError as e:
-                return {"outcome": "error", "type": type(e).__name__, "msg": str(e)[:300]}
-            except RecursionError:
-                return {"outcome": "other", "type": "RecursionError", "msg": ""}
-            except Exception as e:
-                return {"outcome": "other", "type": type(e).__name__, "msg": str(e)[:300]}
-            return self.observe(case, L)
-        finally:
-            if L is not None:
-                G.cleanup(L)
-
-    def observe(self, case, L):
+    def observe(self, case, L, S):
+        """observation of one loaded model (`case` = a step of the session: gram / tree / queries)"""
         import textx
 
         real, why = G.match_objects(L)
@@ -275,8 +314,11 @@ class Prop(Check):
                 truth.append(bool(ro))
             except Exception:
                 truth.append(None)
+        # the objects as Python stores them (class identity, instance dictionary; no meta data) and the number of
+        # meta-model constructions that had taken place when the calls above were made
+        pheap = [S.dump_obj(ro, names.index(type(ro).__name__), parents[i][1], idx) for i, ro in enumerate(real)]
         obs = {"outcome": "ok", "n": n, "heap": heap, "parents": parents, "models": models, "answers": answers,
-               "unknown": unknown[:10], "names": names, "truth": truth}
+               "unknown": unknown[:10], "names": names, "truth": truth, "pheap": pheap, "upto": len(S.hist)}
         obs.update(self.dump_ptree(L, names))
         return obs
 
@@ -284,48 +326,65 @@ class Prop(Check):
         return G.dump_ptree(L, names)
 
     # ------------------------------------------------------------------ model
+    def plan(self, case, obs):
+        """[(step index, step, observation)] of the steps whose navigation calls go to the model"""
+        steps = H.steps_of(case)
+        all_obs = list(obs.get("steps") or []) + [obs]
+        out = []
+        for k, (st, o) in enumerate(zip(steps, all_obs)):
+            if isinstance(o, dict) and o.get("outcome") == "ok" and not o["unknown"] \
+                    and not any(p == -1 for _, p in o["parents"]):
+                out.append((k, st, o))
+        return steps, out
+
     def model_req(self, case, obs):
-        if obs.get("outcome") != "ok" or obs["unknown"]:
+        steps, plan = self.plan(case, obs)
+        if not plan:
             return None
-        n = obs["n"]
-        exp_ids = list(range(n))
-        names = obs["names"]
-        heap = [[c, p, [[cont, ids] for cont, ids, _ in attrs]] for c, p, attrs in obs["heap"]]
-        if any(p == -1 for _, p, _ in heap):
-            return None
-        _, exp = G.expected(case["gram"], case["tree"], PLAIN)
-        qs = []
-        for qu in case["queries"]:
-            if qu[0] == "children":
-                _, root, cf, sel, fol = qu
-                qs.append(["children", root % n, cf, spec_ids(sel, exp), spec_ids(fol, exp)])
-            elif qu[0] == "oftype":
-                _, root, cf, typ, as_class, fol = qu
-                qs.append(["oftype", root % n, cf, names.index(typ), spec_ids(fol, exp)])
-            else:
-                _, typ, as_class, x = qu
-                qs.append(["pot", names.index(typ), x % n])
-        for i in exp_ids:
-            qs.append(["model", i])
-        reqs = [{"op": "nav", "heap": heap, "q": qs}]
-        if obs.get("ptree") is not None:
+        jobs = []
+        for k, st, o in plan:
+            n = o["n"]
+            names = o["names"]
+            _, exp = G.expected(st["gram"], st["tree"], PLAIN)
+            qs = []
+            for qu in st["queries"]:
+                if qu[0] == "children":
+                    _, root, cf, sel, fol = qu
+                    qs.append(["children", root % n, cf, spec_ids(sel, exp), spec_ids(fol, exp)])
+                elif qu[0] == "oftype":
+                    _, root, cf, typ, as_class, fol = qu
+                    qs.append(["oftype", root % n, cf, names.index(typ), spec_ids(fol, exp)])
+                else:
+                    _, typ, as_class, x = qu
+                    qs.append(["pot", names.index(typ), x % n])
+            for i in range(n):
+                qs.append(["model", i])
+            jobs.append({"upto": o["upto"], "heap": o["pheap"], "q": qs})
+        reqs = [{"op": "navh", "hist": obs.get("hist") or [], "steps": jobs}]
+        if obs.get("outcome") == "ok" and not obs["unknown"] and obs.get("ptree") is not None:
             reqs.append({"op": "build", "mm": obs["mm"], "tree": obs["ptree"],
-                         "truth": G.truth_spec(case["gram"], names)})
+                         "truth": G.truth_spec(case["gram"], obs["names"])})
         return {"op": "multi", "reqs": reqs}
 
     def compare(self, case, obs, out):
         if "outs" not in out:
             return f"model rejected the request: {out}"
+        steps, plan = self.plan(case, obs)
         nav = out["outs"][0]
-        if "a" not in nav:
-            return f"model rejected the heap: {nav}"
-        nq = len(case["queries"])
-        for qi, (qu, want, got) in enumerate(zip(case["queries"], nav["a"][:nq], obs["answers"])):
-            if want != got:
-                return f"query {qi} {qu[:4]}: implementation {got}, model {want}"
-        for i, (want, got) in enumerate(zip(nav["a"][nq:], obs["models"])):
-            if want != got:
-                return f"get_model(object {i}): implementation {got}, model {want}"
+        if "steps" not in nav or len(nav["steps"]) != len(plan):
+            return f"model rejected the session: {nav}"
+        for (k, st, o), a in zip(plan, nav["steps"]):
+            where = "" if k == len(steps) - 1 else f"step {k} of the session: "
+            if "a" not in a:
+                return (f"{where}model: the objects do not fit the attribute lists their classes have after "
+                        f"{o['upto']} meta-model construction(s): {a}")
+            nq = len(st["queries"])
+            for qi, (qu, want, got) in enumerate(zip(st["queries"], a["a"][:nq], o["answers"])):
+                if want != got:
+                    return f"{where}query {qi} {qu[:4]}: implementation {got}, model {want}"
+            for i, (want, got) in enumerate(zip(a["a"][nq:], o["models"])):
+                if want != got:
+                    return f"{where}get_model(object {i}): implementation {got}, model {want}"
         if len(out["outs"]) > 1:
             b = out["outs"][1]
             if "objs" not in b:
@@ -368,8 +427,22 @@ class Prop(Check):
 
     # ------------------------------------------------------------------ oracle
     def oracle(self, case, obs):
+        """every step of the session is judged on its own (the last one = the case's own model)"""
+        steps = H.steps_of(case)
+        all_obs = list(obs.get("steps") or []) + [obs]
+        for k, (st, o) in enumerate(zip(steps, all_obs)):
+            if o is None:
+                continue
+            f = self.judge(st, o)
+            if f:
+                if k == len(steps) - 1:
+                    return f if len(steps) == 1 else f"after {len(steps) - 1} earlier step(s) of the session: {f}"
+                return f"step {k} of the session: {f}"
+        return None
+
+    def judge(self, case, obs):
         oc = obs.get("outcome")
-        if oc == "error" and obs.get("type") == "TextXSemanticError" and uses_parent_attr(case):
+        if oc == "error" and obs.get("type") == "TextXSemanticError" and uses_parent_attr(case["gram"]):
             return None  # the grammar is rejected (reserved attribute name): there is no model
         if oc == "error" or oc == "other":
             return f"loading the derived model failed: {obs.get('type')} {obs.get('msg')}"
@@ -454,9 +527,14 @@ class Prop(Check):
     def sample_view(self, case, obs):
         text, exp = G.expected(case["gram"], case["tree"], case["layout"])
         return {"grammar": G.render_grammar(case["gram"]), "text": text[:600], "objects": len(exp),
-                "queries": case["queries"][:4], "answers": (obs.get("answers") or [])[:4], "outcome": obs.get("outcome")}
+                "queries": case["queries"][:4], "answers": (obs.get("answers") or [])[:4], "outcome": obs.get("outcome"),
+                "earlier_steps_of_the_session": [
+                    {"grammar": G.render_grammar(st["gram"]), "share": st["share"], "reuse": st["reuse"],
+                     "defer": st["defer"], "drop": st["drop"], "calls": len(st["queries"])}
+                    for st in H.steps_of(case)[:-1]]}
 
     def shrink(self, case):
+        yield from H.shrink_history(case)
         for qu in case["queries"]:
             if len(case["queries"]) > 1:
                 yield dict(case, queries=[qu])
@@ -503,7 +581,47 @@ class Prop(Check):
             for got in o["answers"]:
                 if isinstance(got, list) and fs & set(got):
                     falsy["calls_returning_one"] += 1
+        # sessions: what the histories looked like and how often the situation "the same class object set up with
+        # another list of containment attributes than before" was met by a model that has instances of that class
+        sess = {"cases": 0, "earlier_steps": 0, "constructions": 0, "steps_sharing_user_classes": 0,
+                "steps_with_own_classes": 0, "steps_reusing_the_metamodel": 0, "deferred_steps": 0, "released_steps": 0,
+                "class_objects_set_up_again": 0, "with_other_containment_attrs": 0,
+                "cases_whose_last_model_has_instances_of_such_a_class": 0, "user_classes_from_callable": 0,
+                "cases_with_derived_user_classes": 0, "step_outcomes": {}}
+        for c, o in zip(cases, obs):
+            if c.get("provider"):
+                sess["user_classes_from_callable"] += 1
+            if any(r.get("base") for r in c["gram"]["rules"]):
+                sess["cases_with_derived_user_classes"] += 1
+            if not c.get("history") or not isinstance(o, dict):
+                continue
+            steps = H.steps_of(c)
+            sess["cases"] += 1
+            sess["earlier_steps"] += len(steps) - 1
+            for st in steps[:-1]:
+                sess["steps_reusing_the_metamodel" if st["reuse"] else
+                     "steps_sharing_user_classes" if st["share"] else "steps_with_own_classes"] += 1
+                sess["deferred_steps"] += 1 if st["defer"] else 0
+                sess["released_steps"] += 1 if st["drop"] else 0
+            for so in o.get("steps") or []:
+                k = so.get("outcome", "?") if isinstance(so, dict) else "none"
+                sess["step_outcomes"][k] = sess["step_outcomes"].get(k, 0) + 1
+            hist = o.get("hist") or []
+            sess["constructions"] += len(hist)
+            last, changed = {}, set()
+            for b in hist:
+                for cid, row in b:
+                    cont = [(a, m) for a, m, ct in row if ct]
+                    if cid in last:
+                        sess["class_objects_set_up_again"] += 1
+                        if last[cid] != cont:
+                            sess["with_other_containment_attrs"] += 1
+                            changed.add(cid)
+                    last[cid] = cont
+            if changed and o.get("outcome") == "ok" and any(po[0] in changed for po in o.get("pheap") or []):
+                sess["cases_whose_last_model_has_instances_of_such_a_class"] += 1
         return {"distribution": {"outcomes": outcomes, "objects_total": sum(sizes), "objects_max": max(sizes or [0]),
+                                 "sessions": sess,
                                  "navigation_calls": nq, "cases_with_user_classes": user,
                                  "cases_per_user_class_trait": traits, "falsy_objects": falsy,
                                  "cases_from_file": sum(1 for c in cases if c.get("file"))}}
